@@ -612,7 +612,11 @@ class Engine:
                 else:
                     raise_to(p, ("reraise",))
                 continue
-            if isinstance(st, ast.Assign):
+            if isinstance(st, ast.Assign) and len(st.targets) == 1 and isinstance(st.targets[0], ast.Attribute) and isinstance(st.value, ast.BinOp) and norm(st.value.left) == norm(st.targets[0]) and self.ev(st.targets[0].value, fr, p)[0][0] == STATE:
+                # `s.counter = s.counter + 1` is the augmented assignment written out
+                for t, q in self.ev(st.value.right, fr, p):
+                    posts.append((fr.env, q.with_eff(("inc", st.targets[0].attr, type(st.value.op).__name__, t)), None))
+            elif isinstance(st, ast.Assign):
                 for t, q in self.ev(st.value, fr, p):
                     fr_i = Frame(func, cls, dict(fr.env), depth)
                     for tg in st.targets:
